@@ -105,6 +105,7 @@ func main() {
 				}
 			}
 			outs := runControls(*repo, *tier, id, base)
+			outs = append(outs, runSeedReplays(*repo, *verif, id, base)...)
 			counts := map[string]int{}
 			for _, o := range outs {
 				counts[o.Kind+":"+o.Outcome]++
